@@ -403,6 +403,7 @@ CORPUS = [
     '#let x = 1\n', '  #let  x  =  (1,2)\n', '= Head\n  - a\n    - b #f( 1 ,2)\n', '$ a + b $ text #{ let y = [*b*]; y }\n',
     '#(\n', 'a #[b #(] c\n', '#let f(x, ..y) = x\n#f(1)[a][b]\n', '/* c */ #import "a": b, c\n', 'é  ü #x.y.z(1)  \n\n  z\n', '',
     ' ', '\n\n', '#{\n  let (a, _) = (1, 2)\n}\n',
+    'first\n\nsecond\n', '#f[\na b\n// c\n]\n', 'a\n\n\nb\n\n', '#[\n  x // c\n]\n',
     '$ vec(mat(1,2;3,4), x) $\n', '$ op(delim: "[", cases(a,b;c,d)) $\n', '$ f(a; b)(c; d) $\n',
 ]
 
@@ -432,6 +433,14 @@ def api_sweep(S, lab):
                         if not (rs <= ta and tb <= re_):
                             return dict(api='Typstyle::format_source_range', source=src, start=a, end=b,
                                         what='returned range %d..%d does not cover trimmed request %d..%d in %s' % (rs, re_, ta, tb, show(src)))
+                    if not err and rs == 0 and re_ == len(bs) and src.strip() != '' and a == 0:
+                        # the whole document is the cover: the text must be what formatting the document gives (same configuration)
+                        full = S.driver.call('format', hexs(src), 80, 2, 0)
+                        rs_ = lambda x: '\n'.join(l.rstrip() for l in x.split('\n'))      # the range text is not post-processed: blanks at line ends may differ
+                        if full[0] == 'ok' and rs_(unhexs(full[1])) != rs_(unhexs(r[3])):
+                            return dict(api='Typstyle::format_source_range', source=src, start=a, end=b, output=unhexs(r[3]),
+                                        what='range %d..%d of %s covers the whole document but the text returned (%s) is not the formatted document (%s)' % (
+                                            a, b, show(src), show(unhexs(r[3])), show(unhexs(full[1]))))
                     if not err:
                         out = bs[:rs].decode('utf-8', 'replace') + unhexs(r[3]) + bs[re_:].decode('utf-8', 'replace')
                         e2 = S.driver.call('erroneous', hexs(out))
